@@ -18,13 +18,14 @@
 //! (`parol::build::GrammarGenerator::{parse, expand, post_process, write_output}`, the same four
 //! steps `Builder::generate_parser` runs, with all output files discarded) stage by stage under
 //! `catch_unwind`; a panic hook records the panic's `Location`.
-//! Reply: `ok` | `err <stage>` | `panic <stage> <file:line>`.
+//! Reply: `ok` | `err <stage>` | `panic <stage> <file:line> <first words of the panic message>`.
 //!   gt   = `as` (text as is) | `ll` | `lr` (the `%grammar_type` directive is removed / replaced)
-//!   k    = maximum lookahead 1..=10
+//!   k    = maximum lookahead (above MAX_K = 10 the Builder answers with an error: `err config`)
 //!   lang = `rs` | `cs`
 //!   text = bytes, `[A-Za-z0-9_]` literal, every other byte `%HH`, the empty text `%.`; bytes that
 //!          are not UTF-8 are rendered lossily (U+FFFD) before they are handed to parol; the
 //!          variant `xraw` hands the bytes over unchanged (parol reads the file itself).
+//! `xapi <k> <text>` calls the public library functions directly (no Builder, no check of k).
 //! `pv c26 xgen <seed> <tier>` prints the exploration cases, `pv c26 xrun` answers them,
 //! `pv c26 shrink` minimises panicking cases (delta debugging on lines, tokens, characters).
 use crate::rng::Rng;
@@ -361,6 +362,7 @@ pub fn run_case(w: &[&str]) -> Option<String> {
     match w {
         ["sites", file] => Some(sites_reply(&repo_path(), file)),
         ["x", ..] | ["xraw", ..] => Some(explore_case(w)),
+        ["xapi", ..] => Some(api_case(w)),
         _ => None,
     }
 }
@@ -443,13 +445,40 @@ pub fn canon_location(file: &str) -> String {
     f
 }
 
+/// first words of a panic message as one protocol word (`[A-Za-z0-9]`, others `_`, ≤ 48 characters)
+fn message_word(m: &str) -> String {
+    let mut o = String::new();
+    let mut last_us = true;
+    for c in m.chars() {
+        if o.len() >= 48 {
+            break;
+        }
+        if c.is_ascii_alphanumeric() {
+            o.push(c);
+            last_us = false;
+        } else if !last_us {
+            o.push('_');
+            last_us = true;
+        }
+    }
+    let o = o.trim_end_matches('_').to_string();
+    if o.is_empty() { "no_message".to_string() } else { o }
+}
+
 pub fn install_hook() {
     std::panic::set_hook(Box::new(|info| {
         let loc = match info.location() {
             Some(l) => format!("{}:{}", canon_location(l.file()), l.line()),
             None => "unknown:0".to_string(),
         };
-        LAST_PANIC.with(|c| *c.borrow_mut() = Some(loc));
+        let msg = if let Some(s) = info.payload().downcast_ref::<&str>() {
+            message_word(s)
+        } else if let Some(s) = info.payload().downcast_ref::<String>() {
+            message_word(s)
+        } else {
+            "no_message".to_string()
+        };
+        LAST_PANIC.with(|c| *c.borrow_mut() = Some(format!("{loc} {msg}")));
     }));
 }
 
@@ -459,7 +488,7 @@ fn guarded<T>(stage: &'static str, f: impl FnOnce() -> Result<T, String>) -> Res
         Ok(Ok(v)) => Ok(v),
         Ok(Err(_)) => Err(format!("err {stage}")),
         Err(_) => {
-            let loc = LAST_PANIC.with(|c| c.borrow_mut().take()).unwrap_or_else(|| "unknown:0".into());
+            let loc = LAST_PANIC.with(|c| c.borrow_mut().take()).unwrap_or_else(|| "unknown:0 no_message".into());
             Err(format!("panic {stage} {loc}"))
         }
     }
@@ -541,7 +570,8 @@ pub fn run_pipeline(bytes: &[u8], k: usize, lang: &str) -> String {
     builder.grammar_file(&path);
     builder.user_type_name("Gr").user_trait_module_name("gr");
     if builder.max_lookahead(k).is_err() {
-        return "bad-k".to_string();
+        // `Builder::max_lookahead` refuses k > MAX_K with an error
+        return "err config".to_string();
     }
     if lang == "cs" {
         builder.language(parol::Language::CSharp);
@@ -566,7 +596,47 @@ pub fn run_pipeline(bytes: &[u8], k: usize, lang: &str) -> String {
     }
 }
 
+/// `xapi <k> <text>`: the public library functions called one after the other, as the documentation
+/// of `parol` suggests for tools (`obtain_grammar_config_from_string`, `check_and_transform_grammar`,
+/// `calculate_lookahead_dfas(cfg, k)` / `calculate_lalr1_parse_table`), without the `Builder`; here the
+/// lookahead limit is not checked against MAX_K by anybody.
+fn api_case(w: &[&str]) -> String {
+    let (k, text) = match w {
+        ["xapi", k, text] => (*k, *text),
+        _ => return "bad-op".to_string(),
+    };
+    let Ok(k) = k.parse::<usize>() else { return "bad-op".to_string() };
+    let Some(bytes) = dec_bytes(text) else { return "bad-op".to_string() };
+    let s = String::from_utf8_lossy(&bytes).into_owned();
+    let r = guarded("parse", || parol::obtain_grammar_config_from_string(&s, false).map_err(|e| e.to_string()))
+        .and_then(|mut gc| {
+            guarded("expand", || {
+                let cfg = parol::generators::check_and_transform_grammar(&gc.cfg, gc.grammar_type)
+                    .map_err(|e| e.to_string())?;
+                gc.update_cfg(cfg);
+                Ok(gc)
+            })
+        })
+        .and_then(|gc| {
+            guarded("analyse", || match gc.grammar_type {
+                parol::parser::parol_grammar::GrammarType::LLK => {
+                    parol::calculate_lookahead_dfas(&gc, k).map(|_| ()).map_err(|e| e.to_string())
+                }
+                parol::parser::parol_grammar::GrammarType::LALR1 => {
+                    parol::calculate_lalr1_parse_table(&gc).map(|_| ()).map_err(|e| e.to_string())
+                }
+            })
+        });
+    match r {
+        Ok(()) => "ok".to_string(),
+        Err(e) => e,
+    }
+}
+
 fn explore_case(w: &[&str]) -> String {
+    if w.first() == Some(&"xapi") {
+        return api_case(w);
+    }
     let (raw, gt, k, lang, text) = match w {
         ["x", gt, k, lang, text] => (false, *gt, *k, *lang, *text),
         ["xraw", gt, k, lang, text] => (true, *gt, *k, *lang, *text),
@@ -1008,19 +1078,26 @@ fn adversarial(thorough: bool) -> Vec<(String, Vec<usize>)> {
     }
     // the same alternative many times (LL conflict at every k; LALR reduce/reduce)
     add(format!("%start S\n%%\nS: {};\n", vec!["\"a\""; 30].join(" | ")), &all_k);
-    // deep nesting of groups / optionals / repetitions / mixed
+    // deep nesting of groups / optionals / repetitions / mixed. Canonicalisation of nested optionals
+    // and repetitions is (at least) quadratic in the depth and lalry's table construction cubic:
+    // depth 1000 takes minutes, so only groups and the production chain go that deep.
     for d in if thorough { vec![10, 60, 250, 1000] } else { vec![10, 60, 250] } {
         for (o, c) in [("(", ")"), ("[", "]"), ("{", "}")] {
+            if d > 250 && o != "(" {
+                continue;
+            }
             add(format!("%start S\n%%\nS: {} \"a\" {};\n", vec![o; d].join(" "), vec![c; d].join(" ")), &[1, 3]);
         }
-        let mut open = String::new();
-        let mut close = String::new();
-        for i in 0..d {
-            let (o, c) = [("( \"x\" ", " )"), ("[ \"y\" ", " ]"), ("{ \"z\" ", " }")][i % 3];
-            open.push_str(o);
-            close.insert_str(0, c);
+        if d <= 250 {
+            let mut open = String::new();
+            let mut close = String::new();
+            for i in 0..d {
+                let (o, c) = [("( \"x\" ", " )"), ("[ \"y\" ", " ]"), ("{ \"z\" ", " }")][i % 3];
+                open.push_str(o);
+                close.insert_str(0, c);
+            }
+            add(format!("%start S\n%%\nS: {open}\"a\"{close};\n"), &[1, 3]);
         }
-        add(format!("%start S\n%%\nS: {open}\"a\"{close};\n"), &[1, 3]);
         // deep right recursion through many non-terminals
         let mut s = String::from("%start N0\n%%\n");
         for i in 0..d {
@@ -1176,6 +1253,25 @@ fn adversarial(thorough: bool) -> Vec<(String, Vec<usize>)> {
     v
 }
 
+/// lookahead limits at and beyond MAX_K = 10: through the Builder (k > 10 must be an error) and
+/// through the public functions (nobody checks the limit there)
+fn limit_cases(out: &mut Vec<String>) {
+    for g in [
+        "%start S\n%%\nS: \"a\" | \"a\";\n",
+        "%start S\n%%\nS: \"a\" \"b\" | \"a\" \"c\";\n",
+        "%start S\n%%\nS: A \"x\" | A \"y\"; A: \"a\" \"a\" \"a\" \"a\" \"a\" \"a\" \"a\" \"a\" \"a\" \"a\" \"a\";\n",
+        "%start S\n%grammar_type 'LALR(1)'\n%%\nS: \"a\" | \"b\";\n",
+    ] {
+        let e = enc_bytes(g.as_bytes());
+        for k in [0usize, 6, 9, 10, 11, 12, 100, 1_000_000] {
+            out.push(format!("x as {k} rs {e}"));
+        }
+        for k in [0usize, 1, 10, 11, 12, 64] {
+            out.push(format!("xapi {k} {e}"));
+        }
+    }
+}
+
 fn push_all_configs(out: &mut Vec<String>, text: &[u8], ks: &[usize], lalr: bool, cs: bool) {
     let e = enc_bytes(text);
     for k in ks {
@@ -1216,7 +1312,7 @@ pub fn generate_exploration(seed: u64, thorough: bool) -> Vec<String> {
     // files small enough to run all configurations on their mutants
     let small: Vec<&(String, Vec<u8>)> = files.iter().filter(|f| f.1.len() <= 4000).collect();
     // (a) byte-level mutations: every file at least once (thorough: 4 times)
-    let rounds = if thorough { 4 } else { 1 };
+    let rounds = if thorough { 3 } else { 1 };
     for r in 0..rounds {
         for (i, (_, b)) in files.iter().enumerate() {
             let m = mutate_bytes(&mut rng, b);
@@ -1232,7 +1328,7 @@ pub fn generate_exploration(seed: u64, thorough: bool) -> Vec<String> {
         }
     }
     if !small.is_empty() {
-        for _ in 0..if thorough { 250 } else { 40 } {
+        for _ in 0..if thorough { 150 } else { 40 } {
             let f = rng.pick(&small);
             let m = mutate_bytes(&mut rng, &f.1);
             push_all_configs(&mut out, &m, &all_k, true, false);
@@ -1255,7 +1351,7 @@ pub fn generate_exploration(seed: u64, thorough: bool) -> Vec<String> {
         }
     }
     if !small.is_empty() {
-        for _ in 0..if thorough { 250 } else { 40 } {
+        for _ in 0..if thorough { 150 } else { 40 } {
             let f = rng.pick(&small);
             let m = mutate_tokens(&mut rng, &String::from_utf8_lossy(&f.1));
             push_all_configs(&mut out, m.as_bytes(), &all_k, true, false);
@@ -1273,6 +1369,7 @@ pub fn generate_exploration(seed: u64, thorough: bool) -> Vec<String> {
         let ks: Vec<usize> = if thorough { all_k.to_vec() } else { vec![1 + i % 5] };
         push_all_configs(&mut out, g.as_bytes(), &ks, true, i % 8 == 0);
     }
+    limit_cases(&mut out);
     // (d) adversarial families
     for (g, ks) in adversarial(thorough) {
         let big = g.len() > 30_000;
@@ -1318,10 +1415,13 @@ fn same_failure(a: &str, b: &str) -> bool {
     a == b
 }
 
-/// Shrinks the text of an `x`/`xraw` case whose reply is `panic …`. Returns the shrunk case.
+/// Shrinks the text of an `x`/`xraw`/`xapi` case whose reply is `panic …` (same stage, same
+/// location). Returns the shrunk case (always with the grammar type written into the text) and its
+/// reply.
 pub fn shrink_case(w: &[&str]) -> Option<(String, String)> {
-    let (op, gt, k, lang, text) = match w {
-        [op @ ("x" | "xraw"), gt, k, lang, text] => (*op, *gt, *k, *lang, *text),
+    let (api, gt, k, lang, text) = match w {
+        ["x" | "xraw", gt, k, lang, text] => (false, *gt, *k, *lang, *text),
+        ["xapi", k, text] => (true, "as", *k, "rs", *text),
         _ => return None,
     };
     let k: usize = k.parse().ok()?;
@@ -1329,14 +1429,26 @@ pub fn shrink_case(w: &[&str]) -> Option<(String, String)> {
     let base = String::from_utf8_lossy(&bytes).into_owned();
     // the grammar type is made explicit in the text so that the shrunk grammar is self-contained
     let full = force_grammar_type(&base, gt);
-    let run = |s: &str| run_pipeline(s.as_bytes(), k, lang);
+    let mk_case = |s: &str| {
+        if api {
+            format!("xapi {k} {}", enc_bytes(s.as_bytes()))
+        } else {
+            format!("x as {k} {lang} {}", enc_bytes(s.as_bytes()))
+        }
+    };
+    let run = |s: &str| {
+        let c = mk_case(s);
+        let words: Vec<&str> = c.split(' ').collect();
+        explore_case(&words)
+    };
     let target = run(&full);
     if !target.starts_with("panic") {
-        // not reproducible after making the grammar type explicit (or not a panic): return unchanged
-        let orig = explore_case(w);
-        return Some((format!("{op} {gt} {k} {lang} {text}"), orig));
+        // not a panic (or not reproducible with the grammar type made explicit): unchanged
+        return Some((w.join(" "), explore_case(w)));
     }
-    let mut budget = 1500usize;
+    // number of pipeline runs spent on shrinking: fixed per text size (deterministic), none for very
+    // large texts (a grammar that needs thousands of terminals cannot get small anyway)
+    let mut budget = if full.len() > 16_000 { 0 } else { (2_000_000 / full.len().max(1)).clamp(40, 1500) };
     // lines
     let lines: Vec<String> = full.split_inclusive('\n').map(|s| s.to_string()).collect();
     let lines = ddmin(lines, &mut |c| same_failure(&run(&c.concat()), &target), &mut budget);
@@ -1347,13 +1459,39 @@ pub fn shrink_case(w: &[&str]) -> Option<(String, String)> {
         let toks = ddmin(toks, &mut |c| same_failure(&run(&join_tokens(c)), &target), &mut budget);
         cur = join_tokens(&toks);
     }
-    // characters, for small residues
+    // characters inside tokens (white space stays, so that the result remains readable)
     if cur.chars().count() <= 400 {
         let cs: Vec<char> = cur.chars().collect();
-        let cs = ddmin(cs, &mut |c| same_failure(&run(&c.iter().collect::<String>()), &target), &mut budget);
-        cur = cs.into_iter().collect();
+        let idx: Vec<usize> = (0..cs.len()).filter(|&i| !cs[i].is_whitespace()).collect();
+        let render = |keep: &[usize]| -> String {
+            let mut k = keep.iter().peekable();
+            let mut o = String::new();
+            for (i, c) in cs.iter().enumerate() {
+                if c.is_whitespace() {
+                    o.push(*c);
+                } else if k.peek() == Some(&&i) {
+                    o.push(*c);
+                    k.next();
+                }
+            }
+            o
+        };
+        let kept = ddmin(idx, &mut |c| same_failure(&run(&render(c)), &target), &mut budget);
+        cur = render(&kept);
+        // squeeze runs of blanks left behind by removed tokens
+        let mut sq = String::new();
+        for line in cur.lines() {
+            let l = line.split_whitespace().collect::<Vec<_>>().join(" ");
+            if !l.is_empty() {
+                sq.push_str(&l);
+                sq.push('\n');
+            }
+        }
+        if same_failure(&run(&sq), &target) {
+            cur = sq;
+        }
     }
-    Some((format!("x as {k} {lang} {}", enc_bytes(cur.as_bytes())), target))
+    Some((mk_case(&cur), target))
 }
 
 // ------------------------------------------------------------------------------------------------
@@ -1392,7 +1530,7 @@ pub fn cli(args: &[String]) {
                 let words: Vec<&str> = line.split_whitespace().collect();
                 let reply = match std::panic::catch_unwind(|| explore_case(&words)) {
                     Ok(r) => r,
-                    Err(_) => "panic harness unknown:0".to_string(),
+                    Err(_) => "panic harness unknown:0 no_message".to_string(),
                 };
                 println!("@@ {reply}");
                 std::io::stdout().flush().unwrap();
